@@ -222,6 +222,25 @@ def run(ctx):
         r1.armed = False  # R2 takes over as the armed rule
         r1.fail("gate", "no release gate: has_broken() consults only %s; %s" % (sorted(cand) if hb and isbad else "?", "; ".join(gate_notes) or "no candidate field"))
 
+    # the gate is cleared by a checkin_cleanup that ends well - which says nothing about a reply the connection still owes: checkin_cleanup is
+    # called only where the last reply taken from the server was taken to its end (every way from a receive to a checkin_cleanup call
+    # crosses is_data_available()==false); with pieces of a reply unread, RESET/ROLLBACK or nothing at all is sent, the gate opens and the
+    # next client reads the previous client's rows
+    n_cc = 0
+    for n_ in F.callers_of("pgcat::server::Server::checkin_cleanup"):
+        b_ = F.body(n_)
+        sws_ = switches(b_)
+        T_, Fa_, _ = call_bool_edges(b_, "pgcat::server::Server::is_data_available", switches_cache=sws_)
+        fT_, fF_ = field_bool_edges(b_, "data_available", sws_)
+        rcv_ = b_.calls("pgcat::client::Client::receive_server_message", "pgcat::server::Server::recv")
+        ccs_ = b_.calls("pgcat::server::Server::checkin_cleanup")
+        n_cc += len(ccs_)
+        wit = b_.uncrossed_path([c.target for c in rcv_ if c.target is not None], [c.block for c in ccs_], edges=Fa_ | fF_)
+        r1.check(wit is None, "cleanup-in-step@" + n_.split("::")[-2], "%s: no checkin_cleanup follows a receive without is_data_available()==false in between (%d receive(s), %d clean-up call(s))" % (n_.split("::")[-2], len(rcv_), len(ccs_)),
+                 "%s: checkin_cleanup can run (and clear the release gate) while a reply is still partly unread - a client write that fails in the middle of a large reply leaves the rest on the connection for the next client" % n_.split("::")[-2],
+                 "", wit and b_.describe_path(wit))
+    r1.check(n_cc >= 4, "cleanup-sites", "%d checkin_cleanup call sites found" % n_cc, "only %d checkin_cleanup call sites found (4 known)" % n_cc)
+
     # ------------------------------------------------------------ R2 explicit exits
     r2 = ctx.rule("C02-R2", "every drop of the pooled-connection guard in Client::handle is preceded by a completed checkin_cleanup (no later server I/O), mark_bad, or the Err edge of a bad_on_err callee",
                   floor=3, armed=gate_field is None)
